@@ -801,4 +801,5 @@ func Run(c *hx.Ctx) {
 	}
 	snapshotCases(c)
 	concurrent(c)
+	hopsCases(c)
 }
